@@ -188,19 +188,87 @@ def serial_world_obligation(ctx):
     ok = set(m.frames) == set(m.R) and d['Worlds']['values'] == sorted(m.R) and all(any(p[0] == w for p in d['Access']['values']) for w in d['Worlds']['values']) and len(d['Frames']['values']) == len(d['Worlds']['values'])
     ctx.add(enum_ob('C20.finish.frames-cover-R.D', ok, clause='after finish() in D every world of R (incl. the serial successor added by enforce) has a frame and is exported; every exported world has a successor', cex=dict(frames=sorted(m.frames), R=sorted(m.R))))
 
+def get_data_obligation(ctx):
+    """BaseModel.get_data interpreted from source for a modal model whose frames were created in an order other than the
+    sorted one, Frame.get_data and Access.flat under contract: the record listed for world w carries frames[w]'s data"""
+    from pytableaux.models import BaseModel
+    from pyvc.interp import LocalDict
+    fn = BaseModel.__dict__['get_data']; fi = source.of_function(fn); where = ctx.under_contract(fi)
+    world = World()
+    class FrameTok(SymVal):
+        def __init__(s, w): s.w = w
+        def sym_getattr(s, it, n):
+            if n == 'get_data': return Contract(lambda it: ('data-of-frame', s.w), 'Frame.get_data')
+            raise Outside(f'Frame.{n}')
+    class RTok(SymVal):
+        def sym_getattr(s, it, n):
+            if n == 'flat':
+                def flat(it, w1s=None, sort=False): s.args = (list(w1s), sort); return GenList([('pair-of', w) for w in w1s])
+                return Contract(flat, 'Access.flat (C20.Access.flat.sorted-pairs)')
+            raise Outside(f'Access.{n}')
+    class ModelTok(SymVal):
+        def __init__(s, order, modal): s.frames = LocalDict((w, FrameTok(w)) for w in order); s.R = RTok(); s.modal = modal
+        def sym_getattr(s, it, n):
+            if n == 'frames': return s.frames
+            if n == 'R': return s.R
+            if n == 'Meta': return Holder(modal=s.modal)
+            raise Outside(f'Model.{n}')
+    bad = None; und = None
+    for order in ([0], [0, 1, 2], [2, 0, 1], [1, 3, 0, 2], [3, 2, 1, 0]):
+        mt = ModelTok(order, True)
+        try:
+            prs = explore(lambda path: Interp(path, world).call_source(fi, fn, BaseModel, [mt], {}, recv=mt))
+        except Outside as e:
+            und = f'outside subset: {e}'; break
+        if len(prs) != 1 or prs[0].kind != 'return': bad = dict(creation_order=order, outcome=[p.kind for p in prs]); break
+        d = prs[0].value
+        ws = sorted(order)
+        try:
+            got_w = list(d['Worlds']['values']); recs = list(d['Frames']['values']); acc = list(d['Access']['values'])
+            vals = [r_['value'] for r_ in recs]; descr = [r_['description'] for r_ in recs]
+        except Exception as e:
+            bad = dict(creation_order=order, malformed=repr(e)); break
+        if got_w != ws or vals != [('data-of-frame', w) for w in ws] or descr != [f'frame at world {w}' for w in ws] or acc != [('pair-of', w) for w in ws] or mt.R.args != (ws, True):
+            bad = dict(creation_order=order, worlds=got_w, frame_records=[[x, list(v)] for x, v in zip(descr, vals)]); break
+    if not bad and not und:
+        mt = ModelTok([0], False)
+        prs = explore(lambda path: Interp(path, world).call_source(fi, fn, BaseModel, [mt], {}, recv=mt))
+        if not (len(prs) == 1 and prs[0].kind == 'return' and prs[0].value == ('data-of-frame', 0)): bad = dict(non_modal=True, got=str(prs[0].value))
+    if und: return ctx.add_result(Result('C20.get_data.frames-aligned', 'unknown', detail=und, where=where))
+    ctx.add(enum_ob('C20.get_data.frames-aligned', bad is None, where=where, cex=bad,
+                    clause='worlds are listed sorted; the i-th frame record describes the i-th listed world and carries that world\'s frame data, whatever order the frames were created in; Access lists flat(w1s=worlds, sort=True); a non-modal model exports frame 0'))
+
+def replay_get_data(r):
+    "a real K model whose frames are created out of order"
+    from pytableaux.logics import registry
+    from pytableaux.lang import Atomic
+    m = registry('K').Model()
+    a = Atomic(0, 0)
+    for w, v in ((2, 'F'), (0, 'F'), (1, 'T')): m.set_value(a, v, world=w)
+    m.R.add((0, 1)); m.R.add((0, 2))
+    m.finish()
+    d = m.get_data()
+    out = []
+    for w, rec in zip(d['Worlds']['values'], d['Frames']['values']):
+        want = m.frames[w].get_data()
+        if rec['value'] != want: out.append(f"record labelled {rec['description']!r} does not carry the data of frame {w}")
+    return dict(reproduced=bool(out), detail='; '.join(out) or 'records aligned')
+
 def run(ctx):
     ctx.level = 'other'
     ctx.drop('type annotations', 'docstrings')
     ctx.trust('value_of_atomic/opaque/predicated return the stored value or the unassigned value (C08.lookups)', 'sorted() relies on the total order of lexical items (C14)',
-              'BaseModel.get_data / Frame.get_data assemble the dictionaries from the helpers verified here (straight-line literal construction; compared on real models in the bounded part)')
+              'Frame.get_data assembles its dictionary from the helpers verified here (straight-line literal construction; compared on real models in the bounded part); BaseModel.get_data is interpreted (C20.get_data.frames-aligned)')
     ctx.assume('CPython semantics of the interpreted subset as encoded by pyvc/interp.py')
     ctx.explanation = ('Proved/ground: PredicateInterpretation.having and Frame._get_predicate_data_values/_part are interpreted from source on every assignment of 3 tuples in the four value sets (P+ iff value in {T,B}, P- iff in {B,F}, '
                        'P- only for many-valued logics); Access.flat interpreted on all small relations; in D the serial successor world is covered by frames and export.  Bounded: get_data() of models read from open branches in all logics '
                        'against value_of for every listed sentence and every tuple over the model constants; determinism and sortedness.')
     having_obligations(ctx)
     flat_obligation(ctx)
+    get_data_obligation(ctx)
     serial_world_obligation(ctx)
     bounded_export(ctx)
+    ctx.replayers['C20.get_data.'] = replay_get_data
     ctx.replayers['C20.'] = lambda r: dict(reproduced=None, detail='see counterexample / meta')
 
 def replay(payload):
